@@ -653,6 +653,9 @@ impl<Context: Send + Sync + 'static> RpcModule<Context> {
 		R: IntoResponse + 'static,
 		F: Fn(Params, Arc<Context>, Extensions) -> R + Clone + Send + Sync + 'static,
 	{
+		#[cfg(jsonrpsee_verif)]
+		use crate::verif::rt as tokio;
+
 		let ctx = self.ctx.clone();
 		let callback = self.methods.verify_and_insert(
 			method_name,
@@ -794,6 +797,9 @@ impl<Context: Send + Sync + 'static> RpcModule<Context> {
 		Fut: Future<Output = R> + Send + 'static,
 		R: IntoSubscriptionCloseResponse + Send,
 	{
+		#[cfg(jsonrpsee_verif)]
+		use crate::verif::rt as tokio;
+
 		let subscribers = self.verify_and_register_unsubscribe(subscribe_method_name, unsubscribe_method_name)?;
 		let ctx = self.ctx.clone();
 
